@@ -494,14 +494,13 @@ func runC04(c *Ctx) {
 			c.bad(rep, "re-arm", rep.Pos(), "the repeating closure never re-arms")
 		}
 		setOnSuccess := false
-		for _, a := range storesTo(cancel, cancelledF) {
-			st := a.Instr.(*ssa.Store)
-			if isConstBool(st.Val, true) {
+		for _, a := range deepStoresTo(cancel, cancelledF) {
+			if isConstBool(a.Store.Val, true) {
 				for _, call := range callsToFn(cancel, itUnset) {
 					// on every successful cancellation of a live timer: whatever state it is in (a repeating timer that
 					// cancels itself from its own callback is stateReady at that moment)
-					al := allowedStates(st.Block(), stateF, 3)
-					if guardedNil(st.Block(), call.(ssa.Value)) && al[ready] && al[scheduled] {
+					al := allowedStates(a.Site.Block(), stateF, 3)
+					if guardedNil(a.Site.Block(), call.(ssa.Value)) && al[ready] && al[scheduled] {
 						setOnSuccess = true
 					}
 				}
